@@ -6,6 +6,7 @@
 #include "xcm_tp.h"
 
 #include "util.h"
+#include "verif.h"
 #include "xcm_addr.h"
 #include "xcm_attr.h"
 #include "xcm_attr_names.h"
@@ -26,6 +27,11 @@ const char *xcm_tp_socket_type_name(enum xcm_socket_type socket_type)
     }
 }
 
+#ifdef XCM_VERIF
+void (*xcm_verif_cb)(const char *ev, long a, long b, long c) = NULL;
+void (*xcm_verif_yield_cb)(const char *site) = NULL;
+#endif
+
 /* socket id, unique on a per-process basis */
 static pthread_mutex_t next_id_lock = PTHREAD_MUTEX_INITIALIZER;
 static int64_t next_id = 0;
@@ -34,7 +40,9 @@ static int64_t get_next_sock_id(void)
 {
     int64_t nid;
     ut_mutex_lock(&next_id_lock);
+    XCM_VERIF_YIELD("id");
     nid = next_id++;
+    XCM_VERIF_EV("sock_id", nid, next_id, 0);
     ut_mutex_unlock(&next_id_lock);
     return nid;
 }
